@@ -10,6 +10,7 @@ import shutil
 import subprocess
 import sys
 import tempfile
+import time
 import traceback
 
 import hypothesis
@@ -389,12 +390,73 @@ def cli_outputs(files, main, hashseed):
         a = subprocess.run([py, "-m", "compiler.front_end.emboss_front_end", "--import-dir", d1, "--output-file", os.path.join(d, "ir.json"), main], cwd=d, env=env, capture_output=True, text=True, timeout=600)
         irj = open(os.path.join(d, "ir.json")).read() if a.returncode == 0 else None
         h2 = None
+        back = None
         if a.returncode == 0:
             b = subprocess.run([py, "-m", "compiler.back_end.cpp.emboss_codegen_cpp", "--input-file", os.path.join(d, "ir.json"), "--output-file", os.path.join(d, "two.h")], cwd=d, env=env, capture_output=True, text=True, timeout=600)
             h2 = open(os.path.join(d, "two.h")).read() if b.returncode == 0 else None
-        return {"embossc": outs[0], "embossc_swapped_dirs": outs[1], "two_program": (a.returncode, a.stderr.replace(d1, "<I>"), h2), "ir_json": irj}
+            back = (b.returncode, b.stderr.replace(d1, "<I>"))
+        return {"embossc": outs[0], "embossc_swapped_dirs": outs[1], "two_program": (a.returncode, a.stderr.replace(d1, "<I>"), h2), "two_program_back_end": back, "ir_json": irj}
     finally:
         shutil.rmtree(d, ignore_errors=True)
+
+
+# accepted by the front end, rejected by the C++ back end, with the offending attribute in the main or in
+# an imported file (the back end verifies the attributes of every module it is given)
+BACK_END_REJECTED = [
+    ({"m.emb": 'import "lib.emb" as lib\n[$default byte_order: "LittleEndian"]\n[(cpp) namespace: "okay::ns"]\nstruct Foo:\n  0 [+1]  lib.Kind  k\n', "lib.emb": '# a library\n\n[(cpp) namespace: "demo::switch::kinds"]\nenum Kind:\n  AA = 1\n'}, "m.emb"),
+    ({"m.emb": 'import "lib.emb" as lib\n[$default byte_order: "LittleEndian"]\nstruct Foo:\n  0 [+1]  lib.Kind  k\n', "lib.emb": '[(cpp) $default enum_case: "SHOUTY_CASE, , kCamelCase"]\nenum Kind:\n  AA = 1\n'}, "m.emb"),
+    ({"m.emb": '[$default byte_order: "LittleEndian"]\n[(cpp) namespace: "a::class::b"]\nstruct Foo:\n  0 [+1]  UInt  k\n'}, "m.emb"),
+]
+
+
+def outdir_history(args):
+    """Fresh embossc processes writing into ONE output directory: compile set A, change only an imported
+    file (set B), compile again - the result must be what a compile of B into an empty directory gives."""
+    files_a, files_b, main, hs = args
+    d = tempfile.mkdtemp(prefix="verif_c17o_")
+    try:
+        src, out1, out2 = os.path.join(d, "src"), os.path.join(d, "out"), os.path.join(d, "fresh")
+        env = dict(os.environ, PYTHONPATH=emb.REPO, PYTHONHASHSEED=str(hs))
+        py = sys.executable
+
+        def write(files):
+            for name, text in files.items():
+                p = os.path.join(src, name)
+                os.makedirs(os.path.dirname(p), exist_ok=True)
+                with open(p, "w") as f:
+                    f.write(text)
+
+        def compile_to(out):
+            os.makedirs(out, exist_ok=True)
+            c = subprocess.run([py, os.path.join(emb.REPO, "embossc"), "--import-dir", src, "--output-path", out, main], cwd=d, env=env, capture_output=True, text=True, timeout=600)
+            hp = os.path.join(out, main + ".h")
+            return (c.returncode, c.stderr, open(hp).read() if os.path.exists(hp) else None)
+
+        write(files_a)
+        first = compile_to(out1)
+        time.sleep(1.1)  # so that file times differ even on a coarse clock
+        write({k: v for k, v in files_b.items() if files_a.get(k) != v})
+        again = compile_to(out1)
+        fresh = compile_to(out2)
+        return {"first": first, "again": again, "fresh": fresh}
+    except Exception:
+        return {"error": traceback.format_exc()}
+    finally:
+        shutil.rmtree(d, ignore_errors=True)
+
+
+OUTDIR_HISTORIES = [
+    (
+        {"main.emb": 'import "dep.emb" as dep\n[$default byte_order: "LittleEndian"]\nstruct Main:\n  0 [+dep.Header.$size_in_bytes]  dep.Header  h\n  let hs = dep.Header.$size_in_bytes\n', "dep.emb": '[$default byte_order: "LittleEndian"]\nstruct Header:\n  0 [+4]  UInt  a\n'},
+        {"main.emb": 'import "dep.emb" as dep\n[$default byte_order: "LittleEndian"]\nstruct Main:\n  0 [+dep.Header.$size_in_bytes]  dep.Header  h\n  let hs = dep.Header.$size_in_bytes\n', "dep.emb": '[$default byte_order: "LittleEndian"]\nstruct Header:\n  0 [+4]  UInt  a\n  4 [+2]  UInt  b\n'},
+        "main.emb",
+    ),
+    (
+        {"main.emb": 'import "dep.emb" as dep\n[$default byte_order: "LittleEndian"]\nstruct Main:\n  0 [+1]  dep.Kind  k\n  if k == dep.Kind.BB:\n    1 [+1]  UInt  x\n', "dep.emb": 'enum Kind:\n  AA = 1\n  BB = 2\n'},
+        {"main.emb": 'import "dep.emb" as dep\n[$default byte_order: "LittleEndian"]\nstruct Main:\n  0 [+1]  dep.Kind  k\n  if k == dep.Kind.BB:\n    1 [+1]  UInt  x\n', "dep.emb": 'enum Kind:\n  AA = 1\n  BB = 7\n'},
+        "main.emb",
+    ),
+]
 
 
 def _cli_job(args):
@@ -441,7 +503,7 @@ def run(ctx):
     import multiprocessing as mp
 
     rnd = random.Random(ctx.seed)
-    cli_sets = [sets[0], sets[1]] + [sets[i] for i in rnd.sample(range(len(sets)), ctx.pick(2, 10))]
+    cli_sets = [sets[0], sets[1]] + BACK_END_REJECTED + [sets[i] for i in rnd.sample(range(len(sets)), ctx.pick(2, 10))]
     jobs = [(f, m, hs) for (f, m) in cli_sets for hs in (0, 3)]
     with mp.get_context("fork").Pool(min(16, len(jobs))) as pool:
         outs = pool.map(_cli_job, jobs)
@@ -459,6 +521,22 @@ def run(ctx):
                 stats.fail({"kind": "cli-import-dir-order"}, {"files": files, "main": main}, "embossc output depends on the order of import dirs holding identical files")
             if o["embossc"][0] == 0 and (o["two_program"][2] != o["embossc"][2]):
                 stats.fail({"kind": "cli-one-vs-two-process"}, {"files": files, "main": main}, "header from embossc differs from emboss_front_end | emboss_codegen_cpp")
+            # a source set that only the back end rejects: both routes print the same diagnostics
+            if o["embossc"][0] != 0 and o["two_program"][0] == 0 and o.get("two_program_back_end") is not None:
+                stats.classes["cli-back-end-rejection"] += 1
+                if o["two_program_back_end"][1].strip() != o["embossc"][1].strip():
+                    x, y = _first_diff(o["embossc"][1], o["two_program_back_end"][1])
+                    stats.fail({"kind": "cli-one-vs-two-process", "what": "diagnostics"}, {"files": files, "main": main}, "diagnostics of embossc and of emboss_front_end | emboss_codegen_cpp differ\nembossc:      %r\ntwo programs: %r" % (x, y))
+    # histories of fresh processes sharing an output directory
+    with mp.get_context("fork").Pool(len(OUTDIR_HISTORIES)) as pool:
+        hs_out = pool.map(outdir_history, [(a_, b_, m_, 0) for (a_, b_, m_) in OUTDIR_HISTORIES])
+    for (fa, fb, m_), o in zip(OUTDIR_HISTORIES, hs_out):
+        if "error" in o:
+            raise vlib.HarnessError(o["error"])
+        stats.case(["outdir", fa, fb], True, ["cli-output-directory-reuse"], sample=None)
+        if (o["again"][0], o["again"][2]) != (o["fresh"][0], o["fresh"][2]):
+            x, y = _first_diff(o["fresh"][2] or "", o["again"][2] or "")
+            stats.fail({"kind": "output-depends-on-earlier-compilation"}, {"files": fb, "main": m_, "files_before": fa}, "after an imported file changed, embossc into the previously used output directory gives a different header than into an empty one\nfresh: %r\nagain: %r" % (x, y))
     ctx.stats = stats
     ctx.coverage_extra["schedules"] = [list(s) for s in schedules]
     return ctx.finish(None)
